@@ -211,6 +211,12 @@ def snapshot_check(request):
     state().missing_values = 0
     state().incorrect_values = 0
 
+    # The externals which are referenced in the file of an executed test are
+    # still in use, even if the test fails before its snapshots are evaluated.
+    test_file = getattr(request.node, "path", None)
+    if test_file is not None and test_file.suffix == ".py":
+        state().files_with_snapshots.add(str(test_file))
+
     if is_xfail(request):
         with snapshot_env() as local_state:
             local_state.active = False
